@@ -416,6 +416,19 @@ def skeletons(fx, rep, rule, name, sy, res):
         st.conds = tuple((fc.rewrite(fc.rewrite(a, as_first_byte_step), as_prefix_step), pol) for a, pol in conds)
         res2.append((st, (k, fc.rewrite(fc.rewrite(v, as_first_byte_step), as_prefix_step))))
     res = res2
+    # a line is rejected only by the grammar: the test that decides an Err path is a combinator that failed on the cursor (or the
+    # `next()` of a split iterator being None, which cannot happen) - never a test of the captured text (`is_valid_name(ty)`)
+    comb_paths = {rp(n_) for n_ in COMB}
+    for st, (k, v) in res:
+        if not (v[0] == "adt" and v[2] == "Err") or not st.conds:
+            continue
+        a_, pol_ = st.conds[-1]
+        if a_[0] == "is" and a_[2] == "Ok" and a_[1][0] == "call" and a_[1][1] in comb_paths and not pol_:
+            continue
+        if a_[0] == "is" and a_[2] == "Some" and not pol_ and a_[1][0] in ("call", "mcall") and a_[1][1].endswith("Iterator::next") \
+                and a_[1][2] and a_[1][2][0][0] in ("call", "place", "after") and ("split" in repr(a_[1][2][0])):
+            continue
+        problems.append("a line is rejected by a test outside the grammar: %s" % S.cstr((st.conds[-1],))[:200])
     for st, (k, v) in res:
         if not (v[0] == "adt" and v[2] == "Ok"):
             continue
